@@ -38,6 +38,12 @@ extern long gr_name;
                     g_gs->backpatching_todo._n, __CPROVER_object_whole(BPS), g_gs->errors._n, __CPROVER_object_whole(g_gs->errors._d), \
                     g_top->register_state._n, __CPROVER_object_whole(REGS), g_top->marks._n, __CPROVER_object_whole(MARKS), g_gs->loops, \
                     MODEL_MAP_GHOSTS)
+/* the same frame for contracts that are only used at call sites: the ghost witnesses of the container model are left
+ * alone, they belong to the lookups of the function under contract */
+#define ASSIGNS_GS_CALLEE                                                                        \
+  __CPROVER_assigns(g_gs->out.code._n, __CPROVER_object_whole(GCODE), g_gs->labels._n, __CPROVER_object_whole(LABS), \
+                    g_gs->backpatching_todo._n, __CPROVER_object_whole(BPS), g_gs->errors._n, __CPROVER_object_whole(g_gs->errors._d), \
+                    g_top->register_state._n, __CPROVER_object_whole(REGS), g_top->marks._n, __CPROVER_object_whole(MARKS), g_gs->loops)
 /* MONO: emitted code is only appended to, labels / pending jumps / errors / registers only grow, the routine stays open */
 #define ENS_MONO                                                                          \
   __CPROVER_ensures(GNC >= OLD(GNC) && GNC <= g_gs->out.code._cap && NLAB >= OLD(NLAB) && NLAB <= g_gs->labels._cap && NBP >= OLD(NBP) && \
